@@ -286,6 +286,86 @@ impl<'a, 'ast> Visit<'ast> for FnInfo<'a> {
     }
 }
 
+/// T20 (A-WAIT order): spans of the statements / expressions of a function body behind which NOTHING runs in the same handler:
+/// tail position (through blocks, if / else, match arms), a statement directly followed by `return`, and a statement followed only
+/// by a constructor-only tail expression (`Ok(Resp::None)`).  Closure bodies are roots of their own.
+fn is_pure_ctor(e: &syn::Expr) -> bool {
+    match e {
+        syn::Expr::Path(_) | syn::Expr::Lit(_) => true,
+        syn::Expr::Paren(p) => is_pure_ctor(&p.expr),
+        syn::Expr::Tuple(t) => t.elems.iter().all(is_pure_ctor),
+        syn::Expr::Call(c) => {
+            let ok = if let syn::Expr::Path(p) = &*c.func {
+                p.path.segments.last().map(|s| { let n = s.ident.to_string(); n == "Ok" || n == "Err" || n == "Some" }).unwrap_or(false)
+            } else { false };
+            ok && c.args.iter().all(is_pure_ctor)
+        }
+        _ => false,
+    }
+}
+fn is_return(st: &syn::Stmt) -> bool {
+    match st {
+        syn::Stmt::Expr(syn::Expr::Return(r), _) => r.expr.as_ref().map(|e| is_pure_ctor(e)).unwrap_or(true),
+        _ => false,
+    }
+}
+fn tail_of_expr(src: &Src, e: &syn::Expr, out: &mut Vec<(usize, usize)>) {
+    match e {
+        syn::Expr::If(i) => {
+            tail_of_block(src, &i.then_branch, out);
+            if let Some((_, el)) = &i.else_branch { tail_of_expr(src, el, out); }
+        }
+        syn::Expr::Match(m) => { for a in &m.arms { tail_of_expr(src, &a.body, out); } }
+        syn::Expr::Block(b) => tail_of_block(src, &b.block, out),
+        syn::Expr::Paren(p) => tail_of_expr(src, &p.expr, out),
+        _ => out.push(src.span(e.span())),
+    }
+}
+fn tail_of_block(src: &Src, b: &syn::Block, out: &mut Vec<(usize, usize)>) {
+    let n = b.stmts.len();
+    if n == 0 { return; }
+    let mut last = n - 1;
+    // a constructor-only tail expression does nothing: the statement before it is the last one that runs
+    if let syn::Stmt::Expr(e, None) = &b.stmts[last] {
+        if is_pure_ctor(e) && last > 0 { last -= 1; }
+    }
+    match &b.stmts[last] {
+        syn::Stmt::Expr(e, _) => tail_of_expr(src, e, out),
+        st => out.push(src.span(st.span())),
+    }
+}
+struct ReturnRule<'a> { src: &'a Src, out: Vec<(usize, usize)> }
+impl<'a, 'ast> Visit<'ast> for ReturnRule<'a> {
+    fn visit_block(&mut self, b: &'ast syn::Block) {
+        for w in b.stmts.windows(2) {
+            if is_return(&w[1]) {
+                match &w[0] {
+                    syn::Stmt::Expr(e, _) => tail_of_expr(self.src, e, &mut self.out),
+                    st => self.out.push(self.src.span(st.span())),
+                }
+            }
+        }
+        syn::visit::visit_block(self, b);
+    }
+    fn visit_expr_closure(&mut self, c: &'ast syn::ExprClosure) {
+        // a closure body is a handler fragment of its own (the `map` closure of an actor future chain)
+        match &*c.body {
+            syn::Expr::Block(b) => tail_of_block(self.src, &b.block, &mut self.out),
+            e => tail_of_expr(self.src, e, &mut self.out),
+        }
+        syn::visit::visit_expr_closure(self, c);
+    }
+    fn visit_item(&mut self, _: &'ast syn::Item) {}
+}
+fn tail_spans(src: &Src, b: &syn::Block) -> Value {
+    let mut out = vec![];
+    tail_of_block(src, b, &mut out);
+    let mut rr = ReturnRule { src, out: vec![] };
+    rr.visit_block(b);
+    out.extend(rr.out);
+    Value::Array(out.iter().map(|(a, b)| json!([a, b])).collect())
+}
+
 fn attrs_json(src: &Src, attrs: &[syn::Attribute]) -> Value {
     let v: Vec<Value> = attrs
         .iter()
@@ -381,6 +461,7 @@ fn sig_json(src: &Src, sig: &syn::Signature, block: Option<&syn::Block>) -> Valu
         o.insert("macros".into(), Value::Array(fi.macros));
         o.insert("awaits".into(), json!(fi.awaits));
         o.insert("tail".into(), tail);
+        o.insert("tail_spans".into(), tail_spans(src, b));
         o.insert("first_stmt".into(), first_stmt);
         o.insert("stmts".into(), Value::Array(stmts));
     }
